@@ -181,6 +181,18 @@ Http::One::Server::buildHttpRequest(Http::StreamPointer &context)
         return false;
     }
 
+    // A CONNECT tunnel takes over the client connection and writes to it
+    // directly. With pipeline_prefetch, it must not be started while responses
+    // to earlier pipelined requests are still owed to that connection.
+    if (request->method == Http::METHOD_CONNECT && pipeline.front() != context) {
+        debugs(33, 3, "refusing CONNECT pipelined behind " << (pipeline.count() - 1) << " unanswered request(s)");
+        // setReplyToError() requires log_uri
+        http->setLogUriToRawUri(http->uri, parser_->method());
+        setReplyError(context, request, ERR_INVALID_REQ, Http::scBadRequest, nullptr);
+        clientProcessRequestFinished(this, request);
+        return false;
+    }
+
     // when absolute-URI is provided Host header should be ignored. However
     // some code still uses Host directly so normalize it using the previously
     // sanitized URL authority value.
